@@ -45,7 +45,7 @@ class TLCResult:
 
 
 _STATE_HDR = re.compile(r"^State (\d+): (.*)$")
-_COV = re.compile(r"^<(\w+) line \d+, col \d+ to line \d+, col \d+ of module (\w+)>: (\d+):(\d+)")
+_COV = re.compile(r"^<(\w+) line \d+, col \d+ to line \d+, col \d+ of module (\w+)(?: \([\d ]+\))?>: (\d+):(\d+)")
 _STATS = re.compile(r"^(\d+) states generated, (\d+) distinct states found, (\d+) states left on queue")
 _DEPTH = re.compile(r"The depth of the complete state graph search is (\d+)")
 _SIMSTATS = re.compile(r"The number of states generated: (\d+)")
